@@ -13,7 +13,7 @@ use std::sync::Arc;
 
 pub struct C01;
 
-const N_HEAVY: u64 = 8;
+const N_HEAVY: u64 = 10;
 
 fn heavy(kind: u64, rng: &mut Rng) -> (Comp, Vec<ContentSpec>, bool, &'static str) {
     let mk = |bytes: Vec<u8>, hint: Hint, src: SrcKind| ContentSpec {
@@ -88,6 +88,21 @@ fn heavy(kind: u64, rng: &mut Rng) -> (Comp, Vec<ContentSpec>, bool, &'static st
             (0..4200).map(|i| mk(vec![b'a' + (i % 26) as u8; 1 + i % 3], if i % 2 == 0 { Hint::No } else { Hint::Yes }, SrcKind::Cursor)).collect(),
             false,
             "4200 contents in 4200 clusters (cluster index above 12 bits)",
+        ),
+        // a cluster with exactly 4096 blobs (what 12 bits can address; the shipped creator closes
+        // a cluster at 4095): cluster limit knob = 4096 blobs
+        8 => (
+            Comp::Zstd(1),
+            (0..4100).map(|i| mk(vec![b'A' + (i % 26) as u8; 2 + i % 5], Hint::Yes, SrcKind::Cursor)).collect(),
+            false,
+            "4100 contents, clusters of 4096 blobs (the most a blob index can address)",
+        ),
+        // more than 65536 clusters in one pack (the format allows 2^20)
+        9 => (
+            Comp::None,
+            (0..66_000).map(|i| mk(vec![b'a' + (i % 26) as u8; 1 + i % 2], Hint::No, SrcKind::Cursor)).collect(),
+            false,
+            "66000 contents in 66000 clusters",
         ),
         // offset width 2 -> 3 bytes (65535 / 65536) in raw and compressed clusters
         _ => (
@@ -173,6 +188,25 @@ fn four_gib_cluster(dir: &Path, rep: &mut BodyReport) {
                 return Err(format!("big content: bytes at {off} are {:?}, not marker {k}", &s[..]));
             }
         }
+        // one slice of more than 2 GiB (more than a single read(2) transfers on Linux): the
+        // markers sit where they were stored, the sparse parts in between are zero
+        {
+            let n = (1usize << 31) + 8192;
+            let s = region.get_slice(jubako::Offset::zero(), n).map_err(|e| format!("big content, slice of {n} bytes: {}", simcore::dump::err_class(&e)))?;
+            if s.len() != n {
+                return Err(format!("slice of {n} bytes has {} bytes", s.len()));
+            }
+            for (k, off) in [(0usize, 0usize), (1, 1 << 31), (5, 123_456_789)] {
+                if s[off..off + 8] != mark(k) {
+                    return Err(format!("slice of {n} bytes: bytes at {off} are {:?}, not marker {k}", &s[off..off + 8]));
+                }
+            }
+            for off in [0x7fff_f000usize, 0x7fff_f000 - 4096, (1 << 31) + 4096, 1 << 30] {
+                if s[off..off + 16].iter().any(|b| *b != 0) {
+                    return Err(format!("slice of {n} bytes: bytes at {off} are {:?}, stored were zeros", &s[off..off + 16]));
+                }
+            }
+        }
         match pack.get_content(jubako::ContentIdx::from(4u32)) {
             Ok(None) => {}
             _ => return Err("address 4 past the count does not answer 'no such content'".into()),
@@ -233,8 +267,11 @@ impl TCheck for C01 {
         if work < N_HEAVY {
             let (comp, contents, dedup, what) = heavy(work, &mut rng);
             let mut knobs = vec![("creator_workers", rng.range(1, 4)), ("decomp_pool_size", 2u64)];
-            if work == 7 {
+            if work == 7 || work == 9 {
                 knobs.push(("cluster_max_blobs", 1));
+            }
+            if work == 8 {
+                knobs.push(("cluster_max_blobs", 4096));
             }
             let w = Arc::new(Work {
                 comp,
@@ -247,7 +284,7 @@ impl TCheck for C01 {
             });
             let w2 = Arc::clone(&w);
             return Prepared {
-                desc: json!({"boundary_workload": what, "comp": comp.name(), "contents": w.contents.len(), "dedup": dedup, "limits": if work == 7 { "one blob per cluster" } else { "shipped (4095 blobs / 4 MiB)" }}),
+                desc: json!({"boundary_workload": what, "comp": comp.name(), "contents": w.contents.len(), "dedup": dedup, "limits": if work == 7 || work == 9 { "one blob per cluster" } else if work == 8 { "4096 blobs per cluster" } else { "shipped (4095 blobs / 4 MiB)" }}),
                 knobs,
                 body: Arc::new(move |slot: &Slot| {
                     let mut rep = BodyReport::default();
@@ -259,7 +296,7 @@ impl TCheck for C01 {
                 hard_fault: false,
                 one_cpu: false,
                 post: None,
-                max_scheds: None,
+                max_scheds: if work == 9 { Some(1) } else { None },
             };
         }
         let comp = *rng.pick(&[
